@@ -2,6 +2,8 @@
 // Every integer SSA value is an unsigned C integer of its width; signedness is per-operation.
 // Arrays are wrapped in structs so they are first-class. Exceptions are modelled with a pending
 // flag (vf_exc) that is tested after every potentially-throwing call.
+#include <llvm/ADT/PostOrderIterator.h>
+#include <llvm/IR/CFG.h>
 #include <llvm/IR/Constants.h>
 #include <llvm/IR/DataLayout.h>
 #include <llvm/IR/Function.h>
@@ -397,7 +399,12 @@ struct FnEmit {
           decl << "\n";
         }
     }
-    for (BasicBlock& b : F) {
+    // blocks are emitted in reverse post-order: loop exits become forward jumps and only real back edges jump backwards.
+    // (CBMC identifies loops by backward jumps; with LLVM's block layout, exits that jump backwards made inner-loop
+    // unwinding counters accumulate across outer iterations.) Blocks unreachable from the entry are not emitted.
+    ReversePostOrderTraversal<Function*> rpo(&F);
+    for (BasicBlock* bp : rpo) {
+      BasicBlock& b = *bp;
       body << bbn[&b] << ": ;\n";
       for (PHINode& p : b.phis()) body << "  " << names[&p] << " = " << names[&p] << "_in;\n";
       for (Instruction& i : b) inst(i);
@@ -639,10 +646,12 @@ struct FnEmit {
     }
     if (auto* r = dyn_cast<ReturnInst>(&I)) { if (r->getReturnValue()) body << "  return " << val(r->getReturnValue()) << ";\n"; else body << "  return;\n"; return; }
     if (isa<UnreachableInst>(I)) { body << "  vf_unreachable(); " << retZero() << "\n"; return; }
-    if (isa<ResumeInst>(I)) { body << "  " << retZero() << " /* resume: exception stays pending */\n"; return; }
+    if (isa<ResumeInst>(I)) { body << "  vf_lp_resume(); " << retZero() << " /* resume: the stashed exception is in flight again */\n"; return; }
     if (auto* lp = dyn_cast<LandingPadInst>(&I)) {
       std::string n = names[&I];
-      body << "  " << n << ".f0 = (uint8_t*)vf_exc; " << n << ".f1 = 0;\n";
+      // entering a pad takes the in-flight exception out of flight (stashed): calls made by cleanup code and handlers must
+      // not see it as pending; resume (or a pad none of whose clauses match) puts it back, __cxa_begin_catch consumes it
+      body << "  " << n << ".f0 = (uint8_t*)vf_exc; " << n << ".f1 = 0; vf_lp_enter();\n";
       std::string chain;
       bool any = lp->isCleanup();
       for (unsigned k = 0; k < lp->getNumClauses(); k++) {
@@ -650,14 +659,14 @@ struct FnEmit {
         Constant* cl = lp->getClause(k);
         auto* g = dyn_cast<GlobalVariable>(cl->stripPointerCasts());
         if (!g) { body << "  " << (chain.empty() ? "" : "else ") << "{ " << n << ".f1 = 0; vf_exc_caughtall = 1; }\n"; chain = "x"; any = true; break; }  // catch (...)
-        body << "  " << (chain.empty() ? "" : "else ") << "if (vf_ti_is_a(vf_exc_ti, &" << C.gname(g) << ")) " << n << ".f1 = " << C.tiid[g] << ";\n";
+        body << "  " << (chain.empty() ? "" : "else ") << "if (vf_ti_is_a(vf_lp_ti(), &" << C.gname(g) << ")) " << n << ".f1 = " << C.tiid[g] << ";\n";
         chain = "x";
       }
       if (!lp->isCleanup()) {
         // a pad with no matching clause would not have been entered: keep unwinding
         bool catchall = false;
         for (unsigned k = 0; k < lp->getNumClauses(); k++) if (lp->isCatch(k) && isa<ConstantPointerNull>(lp->getClause(k)->stripPointerCasts())) catchall = true;
-        if (!catchall) body << "  if (" << n << ".f1 == 0) " << retZero() << "\n";
+        if (!catchall) body << "  if (" << n << ".f1 == 0) { vf_lp_resume(); " << retZero() << " }\n";
       }
       (void)any;
       return;
